@@ -376,18 +376,3 @@ example : trilinear [[[1, 2], [3, 4]], [[5, 6], [7, 8]]] (1/2) (1/2) 1 (1/2) = s
   decide +kernel
 
 end Ladim.C02
-
-#print axioms Ladim.C02.pyTrunc_frac
-#print axioms Ladim.C02.trilinear_convex
-#print axioms Ladim.C02.trilinear_exact_linear
-#print axioms Ladim.C02.uv_exact_linear
-#print axioms Ladim.C02.maskU_interior
-#print axioms Ladim.C02.maskV_interior
-#print axioms Ladim.C02.readVel_node
-#print axioms Ladim.C02.landface_zero
-#print axioms Ladim.C02.scalar_own_cell
-#print axioms Ladim.C02.get2_slice2
-#print axioms Ladim.C02.windowU_node
-#print axioms Ladim.C02.valid_u_index
-#print axioms Ladim.C02.u_index_shift
-#print axioms Ladim.C02.cell_global
